@@ -298,6 +298,26 @@ func c14Run(w *run.Worker) {
 						stop = !c14Parked(w, map[string]string{"a.p": "p(0)\nuse(\"b.p\")\np(1)\nadd_key(k2, 1)", "b.p": src}, false, parkHorizon)
 					}
 				}
+				// the same loops with every one of them under an else / elif branch (no loop statement at the top
+				// level of the script, none in a first branch)
+				if size <= 2 && !stop {
+					for wi := 0; wi < 3 && !stop; wi++ {
+						inner := asNodes(fam.At(i))
+						var wrapped *rt.Node
+						switch wi {
+						case 0:
+							wrapped = rt.If(rt.Bool(false), rt.Block(rt.Call("p", I(5))), rt.Block(inner...))
+						case 1:
+							wrapped = rt.If(rt.Bool(false), rt.Block(rt.Call("p", I(5))), rt.Bool(true), rt.Block(inner...))
+						case 2:
+							wrapped = rt.If(rt.Bool(true), rt.Block(rt.If(rt.Bin("<", Id("x"), I(0)), rt.Block(), rt.Block(inner...))))
+						}
+						ws, _ := rt.PrintProg([]*rt.Node{rt.Call("p", I(0)), rt.Assign("=", Id("x"), I(0)), wrapped, rt.Call("p", I(99), Id("x"))}, nil)
+						if !c14Check(w, map[string]string{"a.p": ws}, isV2, horizon) {
+							stop = true
+						}
+					}
+				}
 				// the same loop inside a script reached through use() (v1 only)
 				if !isV2 && size <= 2 && !stop {
 					a := "p(0)\nuse(\"b.p\")\np(1)\nadd_key(k2, 1)"
@@ -324,6 +344,9 @@ func c14Run(w *run.Worker) {
 			"for ;; { for v in [] { } }",
 			"for ;; { if false { break } elif false { continue } else { for v in [] { } } }",
 			"for v in [1, 2, 3] { for ;; { if false { break } } }",
+		}
+		for _, sp := range append([]string{}, specials...) {
+			specials = append(specials, "if false { p(5) } else {\n"+sp+"\n}", "if false { p(5) } elif true {\n"+sp+"\n}\np(6)", "if true { if false { } else {\n"+sp+"\n} }")
 		}
 		for _, s := range specials {
 			if stop || !w.Take() {
